@@ -33,7 +33,8 @@ CONSTANTS
   FlagSets,    \* the flag sets a run may be started with
   EnvActs,     \* names of the environment actions that are enabled
   FaultActs,   \* subset of {"WriteErr", "WriteTorn", "Die", "SignFail"} that are enabled
-  MaxEnv       \* bound on the number of environment actions in a behaviour; 0 = unbounded
+  MaxEnv,      \* bound on the number of environment actions in a behaviour; 0 = unbounded
+  UsesProfile  \* the entities whose configuration references the (one) shared profile
 
 NoHash == 99            \* "no hash line"; not a content value
 
@@ -41,7 +42,11 @@ Roots       == {e \in Ents : Parent[e] = ""}
 Children(e) == {c \in Ents : Parent[c] = e}
 IsLeaf(e)   == Children(e) = {}
 
-Absent == [exists |-> FALSE, hash |-> NoHash, cert |-> FALSE, certc |-> 0, issc |-> 0, key |-> "none", sigok |-> FALSE]
+\* hash / certc: content value of the entity's own configuration the stored hash / the certificate stands for;
+\* hashp / certp: the same for the profile part of the effective configuration (0 for entities without profile);
+\* expired: the certificate's notAfter lies in the past
+Absent == [exists |-> FALSE, hash |-> NoHash, hashp |-> 0, cert |-> FALSE, certc |-> 0, certp |-> 0, issc |-> 0, key |-> "none",
+           sigok |-> FALSE, expired |-> FALSE]
 
 \* cut classes of a torn or truncated artifact file: what a reader still finds.
 \* The file is "#HASH line, CERTIFICATE, then PRIVATE KEY or CERTIFICATE REQUEST".
@@ -51,19 +56,20 @@ CutClasses == {"empty", "hashonly", "nokey"}
 \*   nokey    : cut after the certificate block or inside the key/request block
 Prefix(a, cut) ==
   CASE cut = "empty"    -> [Absent EXCEPT !.exists = TRUE]
-    [] cut = "hashonly" -> [Absent EXCEPT !.exists = TRUE, !.hash = a.hash]
+    [] cut = "hashonly" -> [Absent EXCEPT !.exists = TRUE, !.hash = a.hash, !.hashp = a.hashp]
     [] cut = "nokey"    -> [a EXCEPT !.key = "none"]
 
 ArtOK(a) ==
   /\ a.exists \in BOOLEAN /\ a.cert \in BOOLEAN /\ a.sigok \in BOOLEAN
   /\ a.hash \in Contents \cup {NoHash}
-  /\ a.certc \in Contents /\ a.issc \in Contents
+  /\ a.certc \in Contents /\ a.issc \in Contents /\ a.hashp \in Contents /\ a.certp \in Contents /\ a.expired \in BOOLEAN
   /\ a.key \in {"none", "key", "csr"}
   /\ (~a.exists => a = Absent)
-  /\ (~a.cert => a.certc = 0 /\ a.issc = 0 /\ a.sigok = FALSE)
+  /\ (~a.cert => a.certc = 0 /\ a.certp = 0 /\ a.issc = 0 /\ a.sigok = FALSE /\ a.expired = FALSE)
+  /\ (a.hash = NoHash => a.hashp = 0)
 
 TypeOK(s) ==
-  /\ s.cfgc \in [Ents -> Contents]
+  /\ s.cfgc \in [Ents -> Contents] /\ s.prof \in Contents
   /\ s.cfgNewer \in [Ents -> BOOLEAN] /\ s.issNewer \in [Ents -> BOOLEAN]
   /\ \A e \in Ents : ArtOK(s.art[e])
   /\ s.pc \in {"idle", "running"}
@@ -74,17 +80,21 @@ TypeOK(s) ==
 (***************************************************************************)
 HasArt(a) == a.cert \/ a.key # "none"
 
+\* the profile part of e's effective configuration
+ProfOf(s, e) == IF e \in UsesProfile THEN s.prof ELSE 0
+HashCurrent(s, e) == s.art[e].hash = s.cfgc[e] /\ s.art[e].hashp = ProfOf(s, e)
+
 FactsOf(s, e) ==
   LET a == s.art[e]
       p == Parent[e]
   IN [ cert |-> a.cert, key |-> a.key = "key", csr |-> a.key = "csr",
-       hash |-> IF a.hash = NoHash THEN "none" ELSE IF a.hash = s.cfgc[e] THEN "equal" ELSE "different",
+       hash |-> IF a.hash = NoHash THEN "none" ELSE IF HashCurrent(s, e) THEN "equal" ELSE "different",
        \* without a file the database reports the zero time: the config is newer, the issuer's
        \* artifact (if it has a file) is newer
        cfgVsArt |-> IF ~a.exists THEN "newer" ELSE IF s.cfgNewer[e] THEN "newer" ELSE "older",
        issVsArt |-> IF p = "" \/ ~s.art[p].exists THEN "older"
                     ELSE IF ~a.exists THEN "newer" ELSE IF s.issNewer[e] THEN "newer" ELSE "older",
-       expired |-> FALSE, cfgUnexpired |-> TRUE,
+       expired |-> a.expired, cfgUnexpired |-> TRUE,
        hasIssuer |-> p # "", issuerHasArt |-> p # "" /\ HasArt(s.art[p]) ]
 
 \* A file that exists but holds nothing decodable still has a modification time; the rule's
@@ -131,7 +141,7 @@ Signable(s, e) ==
   ELSE s.art[Parent[e]].cert /\ s.art[Parent[e]].key = "key"
 
 NewArt(s, e) ==
-  [ exists |-> TRUE, hash |-> s.cfgc[e], cert |-> TRUE, certc |-> s.cfgc[e],
+  [ exists |-> TRUE, hash |-> s.cfgc[e], hashp |-> ProfOf(s, e), cert |-> TRUE, certc |-> s.cfgc[e], certp |-> ProfOf(s, e), expired |-> FALSE,
     issc  |-> IF Parent[e] = "" THEN s.cfgc[e] ELSE s.art[Parent[e]].certc,
     key   |-> IF s.art[e].key = "none" THEN "key" ELSE s.art[e].key,      \* C14: key material is kept
     sigok |-> TRUE ]
@@ -184,13 +194,22 @@ Apply(s, a) ==
     [] a.name = "Replace" ->       \* user-supplied self-signed certificate + key, no hash line,
                                    \* made for the current configuration
          IF s.pc = "idle"
-         THEN {[PutArt(s, a.e, [exists |-> TRUE, hash |-> NoHash, cert |-> TRUE, certc |-> s.cfgc[a.e],
-                                 issc |-> s.cfgc[a.e], key |-> "key", sigok |-> Parent[a.e] = ""], TRUE)
+         THEN {[PutArt(s, a.e, [exists |-> TRUE, hash |-> NoHash, hashp |-> 0, cert |-> TRUE, certc |-> s.cfgc[a.e], certp |-> ProfOf(s, a.e),
+                                 issc |-> s.cfgc[a.e], key |-> "key", sigok |-> Parent[a.e] = "", expired |-> FALSE], TRUE)
                 EXCEPT !.last = "env", !.flags = {}]}
          ELSE {}
     [] a.name = "MakeCsr" ->       \* the file is replaced by a certificate request (leaf entities)
          IF s.pc = "idle" /\ IsLeaf(a.e) /\ Parent[a.e] # ""
          THEN {[PutArt(s, a.e, [Absent EXCEPT !.exists = TRUE, !.key = "csr"], TRUE) EXCEPT !.last = "env", !.flags = {}]}
+         ELSE {}
+    [] a.name = "EditProfile" ->   \* the user changes the content of the shared profile
+         IF s.pc = "idle" /\ a.c # s.prof THEN {[s EXCEPT !.prof = a.c, !.last = "env", !.flags = {}]} ELSE {}
+    [] a.name = "Expire" ->        \* time passes: the certificate of e (intact chain, issuer key at hand) is now expired.
+                                   \* No file is touched: the modification-time relations stay as they are.
+         IF s.pc = "idle" /\ s.art[a.e].cert /\ ~s.art[a.e].expired /\ s.art[a.e].sigok /\ s.art[a.e].key = "key"
+            /\ (IF Parent[a.e] = "" THEN s.art[a.e].issc = s.art[a.e].certc
+                ELSE s.art[Parent[a.e]].cert /\ s.art[Parent[a.e]].key = "key" /\ s.art[a.e].issc = s.art[Parent[a.e]].certc)
+         THEN {[s EXCEPT !.art[a.e].expired = TRUE, !.last = "env", !.flags = {}]}
          ELSE {}
     [] a.name = "StartRun" ->      \* Open + PlanBulkUpdate: a.plan is the plan (sequence of entities)
          IF s.pc = "idle" /\ a.fl \in FlagSets
@@ -250,7 +269,7 @@ RunMacro(s, a) ==
 VARIABLES st, nenv      \* nenv counts environment actions (only when MaxEnv > 0)
 
 InitState ==
-  [ cfgc |-> [e \in Ents |-> 0], cfgNewer |-> [e \in Ents |-> FALSE], issNewer |-> [e \in Ents |-> FALSE],
+  [ cfgc |-> [e \in Ents |-> 0], prof |-> 0, cfgNewer |-> [e \in Ents |-> FALSE], issNewer |-> [e \in Ents |-> FALSE],
     art |-> [e \in Ents |-> Absent], pc |-> "idle", plan |-> <<>>, pos |-> 0, flags |-> {}, last |-> "none" ]
 
 Init == st = InitState /\ nenv = 0
@@ -267,6 +286,8 @@ TruncateAct == "Truncate" \in EnvActs /\ \E e \in Ents, c \in CutClasses : EnvSt
 StripKeyAct == "StripKey" \in EnvActs /\ \E e \in Ents : EnvStep([name |-> "StripKey", e |-> e])
 ReplaceAct  == "Replace" \in EnvActs /\ \E e \in Ents : EnvStep([name |-> "Replace", e |-> e])
 MakeCsrAct  == "MakeCsr" \in EnvActs /\ \E e \in Ents : EnvStep([name |-> "MakeCsr", e |-> e])
+EditProfileAct == "EditProfile" \in EnvActs /\ UsesProfile # {} /\ \E c \in Contents : EnvStep([name |-> "EditProfile", c |-> c])
+ExpireAct   == "Expire" \in EnvActs /\ \E e \in Ents : EnvStep([name |-> "Expire", e |-> e])
 StartRunAct == \E fl \in FlagSets : \E S \in PlanSets(st, fl) : \E p \in TopoOrders(S) :
                   Step([name |-> "StartRun", fl |-> fl, plan |-> p])
 WriteOKAct  == Step([name |-> "WriteOK"])
@@ -276,7 +297,7 @@ WriteTornAct == "WriteTorn" \in FaultActs /\ \E c \in CutClasses : Step([name |-
 DieAct      == "Die" \in FaultActs /\ Step([name |-> "Die"])
 
 Next ==
-  \/ EditAct \/ TouchAct \/ DeleteAct \/ TruncateAct \/ StripKeyAct \/ ReplaceAct \/ MakeCsrAct
+  \/ EditAct \/ TouchAct \/ DeleteAct \/ TruncateAct \/ StripKeyAct \/ ReplaceAct \/ MakeCsrAct \/ EditProfileAct \/ ExpireAct
   \/ StartRunAct \/ WriteOKAct \/ SignFailAct \/ WriteErrAct \/ WriteTornAct \/ DieAct
 
 vars == <<st, nenv>>
@@ -300,8 +321,8 @@ Converged(s) ==
   \A e \in Ents :
      /\ s.art[e].cert /\ s.art[e].key # "none"
      /\ s.art[e].hash # NoHash =>
-           /\ s.art[e].hash = s.cfgc[e]
-           /\ s.art[e].certc = s.cfgc[e]
+           /\ HashCurrent(s, e)
+           /\ s.art[e].certc = s.cfgc[e] /\ s.art[e].certp = ProfOf(s, e)
            /\ ChainOK(s, e)
 
 \* C12: after a successful run with the default flags the directory has converged
